@@ -112,16 +112,34 @@ pub fn make_invalid(rule: &str, tape: Vec<u32>) -> Option<Invalid> {
             inv("interface", "", item, "", valid)
         }
         r if r.starts_with("reply-") || r.starts_with("data-") || r.starts_with("param-") || r == "missing-payload" || r.starts_with("payload-") || r == "unknown-reply-on" || r == "unknown-data-arg" => {
-            let b = REPLY_BASE.to_string();
+            // the second payload parameter's type is drawn; for the type-mismatch rule the two
+            // methods get a pair of different types, including pairs that differ only inside
+            // generic arguments
+            const PAYLOAD_TYS: &[&str] = &["String", "u64", "Vec<u32>", "Option<u64>", "(u32, String)", "Vec<Option<String>>", "Box<Coin>", "BTreeMap<String, u32>"];
+            const MISMATCH: &[(&str, &str)] = &[
+                ("String", "u64"),
+                ("Vec<u32>", "Vec<String>"),
+                ("Option<u64>", "Option<Addr>"),
+                ("Vec<u32>", "Vec<Vec<u32>>"),
+                ("(u32, String)", "(u32, u64)"),
+                ("Option<u32>", "Vec<u32>"),
+                ("BTreeMap<String, u32>", "BTreeMap<String, u64>"),
+                ("Box<Coin>", "Box<Addr>"),
+                ("Vec<(u8, u8)>", "Vec<(u8, u16)>"),
+            ];
+            let pair = MISMATCH[t.pick(MISMATCH.len())];
+            let ty2 = if r == "reply-payload-type" { pair.0 } else { PAYLOAD_TYS[t.pick(PAYLOAD_TYS.len())] };
+            let b = REPLY_BASE.replace("p2: String", &format!("p2: {ty2}"));
+            let err_sig = format!("error: String, p1: u32, p2: {ty2}");
             let item = match r {
                 "reply-dup-success" => b.replacen("handlers=[on_a], reply_on=error)]\n    fn on_a_err(&self, ctx: ReplyCtx, error: String,", "handlers=[on_a], reply_on=success)]\n    fn on_a_err(&self, ctx: ReplyCtx,", 1),
                 "reply-dup-error" => b.replacen("handlers=[on_a], reply_on=success)]\n    fn on_a_ok(&self, ctx: ReplyCtx, #[sv::data(opt)] data: Option<u32>,", "handlers=[on_a], reply_on=error)]\n    fn on_a_ok(&self, ctx: ReplyCtx, error: String,", 1),
                 "reply-always-plus-success" => b.replacen("handlers=[on_a], reply_on=error)]\n    fn on_a_err(&self, ctx: ReplyCtx, error: String,", "handlers=[on_a], reply_on=always)]\n    fn on_a_err(&self, ctx: ReplyCtx, result: SubMsgResult,", 1),
                 "reply-always-plus-error" => b.replacen("handlers=[on_a], reply_on=success)]\n    fn on_a_ok(&self, ctx: ReplyCtx, #[sv::data(opt)] data: Option<u32>,", "handlers=[on_a], reply_on=always)]\n    fn on_a_ok(&self, ctx: ReplyCtx, result: SubMsgResult,", 1),
                 "reply-dup-always" => b.replacen("}\n}\n", "}\n    #[sv::msg(reply, handlers=[on_b], reply_on=always)]\n    fn on_b_again(&self, ctx: ReplyCtx, result: SubMsgResult, #[sv::payload(raw)] payload: Binary) -> Result<Response, StdError> { todo!() }\n}\n", 1),
-                "reply-payload-arity" => b.replacen("error: String, p1: u32, p2: String", "error: String, p1: u32", 1),
-                "reply-payload-type" => b.replacen("error: String, p1: u32, p2: String", "error: String, p1: u32, p2: u64", 1),
-                "data-not-first" => b.replacen("#[sv::data(opt)] data: Option<u32>, p1: u32,", "p1: u32, #[sv::data(opt)] data: Option<u32>,", 1).replacen("error: String, p1: u32, p2: String", "error: String, p1: u32, data: Option<u32>, p2: String", 1),
+                "reply-payload-arity" => b.replacen(&err_sig, "error: String, p1: u32", 1),
+                "reply-payload-type" => b.replacen(&err_sig, &format!("error: String, p1: u32, p2: {}", pair.1), 1),
+                "data-not-first" => b.replacen("#[sv::data(opt)] data: Option<u32>, p1: u32,", "p1: u32, #[sv::data(opt)] data: Option<u32>,", 1).replacen(&err_sig, &format!("error: String, p1: u32, data: Option<u32>, p2: {ty2}"), 1),
                 "data-on-error" => b.replacen("error: String, p1: u32", "#[sv::data] error: String, p1: u32", 1),
                 "data-on-always" => b.replacen("result: SubMsgResult,", "#[sv::data(raw)] result: SubMsgResult,", 1),
                 "data-raw-instantiate" => b.replacen("#[sv::data(opt)]", "#[sv::data(raw, instantiate)]", 1),
